@@ -168,6 +168,9 @@ class Stream:
     @htr.setter
     def htr(self, value: float):
         self._htr = value
+        if isinstance(value, float | int) and value != 0.0:
+            self._htc = 1 / value
+            self._update_attributes()
 
     @property
     def price(self) -> float:
